@@ -745,3 +745,120 @@ class Gen:
                 self.track(rd, data)
             pairs.append((a, b))
         return ops, pairs
+
+
+# ====================================================================================================
+# additions: exhaustive transition catalogue of the Huffman automaton, long strings, size histories
+# ====================================================================================================
+def _code_tree():
+    from refmodel import CODES, LENGTHS
+    code = {format(c, '0%db' % l): s for s, (c, l) in enumerate(zip(CODES, LENGTHS))}
+    internal = set()
+    for k in code:
+        for j in range(len(k)):
+            internal.add(k[:j])
+    return code, sorted(internal, key=lambda p: (len(p), p))
+
+
+def _bits_to_bytes(bits):
+    return bytes(int(bits[i:i + 8], 2) for i in range(0, len(bits), 8))
+
+
+def huff_transition_catalogue():
+    """for EVERY internal node p of the Appendix B code tree (= every state of a nibble automaton) and every
+    nibble x: inputs that reach p at a nibble boundary, feed x, and end in several ways (at once, after
+    more one-bits, after zero bits, after completing a symbol). Covers all 4096 (state, nibble) entries of
+    the decoding table, both as a last and as an inner transition."""
+    code, internal = _code_tree()
+    sym_by_len = {}
+    for k, s in code.items():
+        if s < 256:
+            sym_by_len.setdefault(len(k), k)
+    # prefixes W of whole symbols with every residue mod 8
+    base = [sym_by_len[l] for l in (5, 6, 7, 8) if l in sym_by_len]
+    pref = {0: ''}
+    frontier = ['']
+    for _ in range(4):
+        nxt = []
+        for w in frontier:
+            for b in base:
+                ww = w + b
+                if len(ww) % 8 not in pref:
+                    pref[len(ww) % 8] = ww
+                nxt.append(ww)
+        frontier = nxt[:64]
+    def completion(p):
+        # shortest way from partial path p to a leaf that is not EOS
+        best = None
+        for k, s in code.items():
+            if s < 256 and k.startswith(p) and (best is None or len(k) < len(best)):
+                best = k
+        return best[len(p):] if best else ''
+    ops = []
+    seen = set()
+    for p in internal:
+        for want_res in (0, 4):
+            w = pref.get((want_res - len(p)) % 8)
+            if w is None:
+                continue
+            for x in range(16):
+                head = w + p + format(x, '04b')
+                # partial path after x
+                cur = ''
+                for ch in p + format(x, '04b'):
+                    cur += ch
+                    if cur in code:
+                        cur = ''
+                for tail in ('', '1111', '11111111', '0000', completion(cur) if cur else ''):
+                    bits = head + tail
+                    bits += '1' * ((8 - len(bits) % 8) % 8)
+                    if bits in seen:
+                        continue
+                    seen.add(bits)
+                    ops.append('hdec ' + hx(_bits_to_bytes(bits)))
+    return ops
+
+
+def long_huffman_strings(rnd, n_random=6):
+    """long inputs (chunking / flushing code paths): exact multiples of 512/1024/4096 of symbols whose
+    code length is 5, 6, 7, 8, 13 bits; strings starting with all-zero octets of code; random long"""
+    out = []
+    for ch in (b'X', b'a', b'0', b'A', b'\x00', b'\xc3\xa9'):
+        for k in (512, 1023, 1024, 1025, 2048, 4096):
+            out.append(ch * (k // len(ch)))
+    out += [b'00' + b'X' * 1100, b'X' * 1024 + b'00' + b'X' * 1100, b'0' * 3000, b'0a' * 700, b'01' * 1500]
+    for _ in range(n_random):
+        ln = rnd.choice([1000, 1024, 2000, 3000, 5000])
+        out.append(bytes(rnd.choice(b'0123456789aeiost/-: X') for _ in range(ln)))
+        out.append(bytes(rnd.randrange(256) for _ in range(ln // 4)))
+    return out
+
+
+def enc_size_stream(g, n=40, start_id=7000):
+    """histories of table-size assignments between blocks (C09/C10): repeats, returns to the old value,
+    shrink/grow in every order, zero first/last, several blocks after one change; decoded by a piped decoder"""
+    ops = []
+    rnd = g.rnd
+    pool = [0, 33, 34, 40, 64, 66, 100, 200, 300, 4096, 4097, 8192]
+    cat = [[40, 40], [40, 4096], [4096, 40, 4096], [200, 0, 200], [200, 100, 300, 200], [0], [0, 4096], [100, 0], [0, 100],
+           [64, 4096], [4096, 64], [40, 100, 40], [100, 40, 100], [8192], [8192, 4096], [33, 34, 33], [0, 0], [4096], [4096, 4096, 4096]]
+    i = start_id
+    for seq in cat + [[rnd.choice(pool) for _ in range(rnd.randint(1, 5))] for _ in range(n)]:
+        i += 1
+        ops.append('enew %d' % i); ops.append('dnew %d 1000000' % i); ops.append('dallow %d 16384' % i)
+        warm = [(b'a', b'b', False), (b'c', b'd' * 10, False), (b'e', b'f', False)]
+        ops.append('eenc %d 0 %s' % (i, ' '.join('%s:%s:%d' % (hx(n), hx(v), int(s)) for n, v, s in warm)))
+        ops.append('pipe %d 1 %d' % (i, i))
+        rounds = rnd.choice([1, 1, 2, 3])
+        for r in range(rounds):
+            for s in (seq if r == 0 else [rnd.choice(pool) for _ in range(rnd.randint(0, 3))]):
+                ops.append('esize %d %d' % (i, s))
+            hs = [(b'a', b'b', False), (rnd.choice([b'c', b'g', b'x']), rnd.choice([b'd' * 10, b'h', b'']), rnd.random() < 0.2)]
+            if rnd.random() < 0.3:
+                hs = []
+            ops.append('eenc %d %d %s' % (i, rnd.random() < 0.5, ' '.join('%s:%s:%d' % (hx(n), hx(v), int(s)) for n, v, s in hs) if hs else '-'))
+            ops.append('pipe %d 1 %d' % (i, i))
+            if rnd.random() < 0.5:
+                ops.append('eenc %d 0 %s' % (i, '%s:%s:0' % (hx(b'a'), hx(b'b'))))
+                ops.append('pipe %d 1 %d' % (i, i))
+    return ops
